@@ -247,6 +247,13 @@ class BlockingCallScan(FiniteTask):
                         wait = kws.get("wait")
                         blocking = not (isinstance(wait, ast.Constant) and wait.value is False)
                         tmo = ast.unparse(kws["timeout"]) if "timeout" in kws else None
+                        if "timeout" in kws and isinstance(kws["timeout"], ast.Name):
+                            # a local that was assigned a configured timeout (hoisted attribute read): every assignment counts
+                            vals = [ast.unparse(a.value) for a in ast.walk(f) if isinstance(a, (ast.Assign, ast.AnnAssign)) and a.value is not None
+                                    and any(isinstance(t, ast.Name) and t.id == kws["timeout"].id
+                                            for t in (a.targets if isinstance(a, ast.Assign) else [a.target]))]
+                            if vals and all(v.endswith("_timeout") for v in vals):
+                                tmo = vals[0]
                         sites.append((fn, f.name, n.lineno, blocking, tmo))
         emit("C08/frame/receive_pdu-call-sites-found", len(sites) >= 4, detail=sites)
         for fn, fname, line, blocking, tmo in sites:
